@@ -1,1 +1,411 @@
+// Package literals: C36 — a %[ ] / %{ } literal written in JSON syntax builds the same value that
+// encoding/json builds from the same text. JSON documents are enumerated exhaustively from a small
+// grammar, printed in several layouts, assigned with `v = %…` in-process, and the JSON text murex
+// keeps for v is decoded and compared with encoding/json's decoding of the literal's own text.
 package literals
+
+import (
+	"encoding/json"
+	"fmt"
+	"reflect"
+	"strings"
+
+	"verif/checks/g1util"
+	"verif/mx"
+	"verif/vlib"
+)
+
+// ---------------------------------------------------------------------------------------------
+// documents
+
+type node struct {
+	leaf string // JSON text of a scalar
+	arr  bool
+	obj  bool
+	kids []*node
+	keys []string // JSON text of the keys (objects)
+}
+
+// leaves: numbers, booleans, null and double-quoted strings without backslash, $, ~, ( and ).
+// Strings that look like other types or contain the literal's own punctuation are the interesting ones.
+var leavesFull = []string{
+	`0`, `1`, `-1`, `1.5`, `1e3`, `true`, `false`, `null`, `""`, `"a"`, `"a b"`, `"é"`, `"["`, `"{"`, `","`, `":"`,
+	`"]"`, `"}"`, `"1"`, `"true"`, `"null"`, `"#"`, `"'"`, `"1..3"`, `" "`, `"%[1]"`,
+	`-0`, `1E3`, `1e-2`, `-1.5e+2`, `10`, `0.5`, `1.0`, `123456789`, `9007199254740993`, `1e21`,
+}
+var leavesMid = []string{`1`, `"a"`, `true`, `null`, `-1.5`, `""`}
+var leavesTen = []string{`0`, `1.5`, `-1`, `true`, `false`, `null`, `""`, `"a b"`, `"1"`, `":"`}
+var leavesFour = []string{`1`, `"a"`, `null`, `false`}
+var leavesTwo = []string{`1`, `"a"`}
+
+var posKeys = []string{`"a"`, `"b c"`, `"é"`}
+var allKeys = []string{`"a"`, `"b c"`, `"é"`, `""`, `"1"`, `"true"`, `"null"`, `"["`, `"{"`, `":"`, `","`, `"#"`, `"a.b"`, `"A"`, `"}"`, `" "`}
+
+func leafNodes(ls []string) []*node {
+	out := make([]*node, len(ls))
+	for i, l := range ls {
+		out[i] = &node{leaf: l}
+	}
+	return out
+}
+
+// containers: every array and every object with 0..maxKids children drawn from elems (objects use the
+// positional keys "a", "b c", "é").
+func containers(elems []*node, maxKids int, fn func(n *node) bool) bool {
+	for _, isObj := range []bool{false, true} {
+		for k := 0; k <= maxKids; k++ {
+			radix := make([]int, k)
+			for i := range radix {
+				radix[i] = len(elems)
+			}
+			ok := true
+			emit := func(idx []int) bool {
+				n := &node{arr: !isObj, obj: isObj}
+				for i, x := range idx {
+					n.kids = append(n.kids, elems[x])
+					if isObj {
+						n.keys = append(n.keys, posKeys[i])
+					}
+				}
+				ok = fn(n)
+				return ok
+			}
+			if k == 0 {
+				emit(nil)
+			} else {
+				vlib.Product(radix, emit)
+			}
+			if !ok {
+				return false
+			}
+		}
+	}
+	return true
+}
+
+func collect(elems []*node, maxKids int) []*node {
+	var out []*node
+	containers(elems, maxKids, func(n *node) bool { out = append(out, n); return true })
+	return out
+}
+
+// ---------------------------------------------------------------------------------------------
+// layouts
+
+type layout int
+
+const (
+	compact layout = iota // [1,2] {"a":1}
+	spaced                // [1, 2] {"a": 1}
+	padded                // [ 1 , 2 ] { "a" : 1 }   (a space wherever JSON allows white space)
+	multiline             // json.MarshalIndent style: one element per line
+	nLayouts
+)
+
+var layoutNames = []string{"compact", "spaced", "padded", "multi-line"}
+
+func (n *node) print(b *strings.Builder, l layout, depth int) {
+	if !n.arr && !n.obj {
+		b.WriteString(n.leaf)
+		return
+	}
+	open, shut := "[", "]"
+	if n.obj {
+		open, shut = "{", "}"
+	}
+	if len(n.kids) == 0 {
+		b.WriteString(open)
+		if l == padded {
+			b.WriteString(" ")
+		}
+		b.WriteString(shut)
+		return
+	}
+	ind := func(d int) string { return "\n" + strings.Repeat("  ", d) }
+	b.WriteString(open)
+	switch l {
+	case padded:
+		b.WriteString(" ")
+	case multiline:
+		b.WriteString(ind(depth + 1))
+	}
+	for i, k := range n.kids {
+		if i > 0 {
+			switch l {
+			case compact:
+				b.WriteString(",")
+			case spaced:
+				b.WriteString(", ")
+			case padded:
+				b.WriteString(" , ")
+			case multiline:
+				b.WriteString("," + ind(depth+1))
+			}
+		}
+		if n.obj {
+			b.WriteString(n.keys[i])
+			switch l {
+			case compact:
+				b.WriteString(":")
+			case padded:
+				b.WriteString(" : ")
+			default:
+				b.WriteString(": ")
+			}
+		}
+		k.print(b, l, depth+1)
+	}
+	switch l {
+	case padded:
+		b.WriteString(" ")
+	case multiline:
+		b.WriteString(ind(depth))
+	}
+	b.WriteString(shut)
+}
+
+func (n *node) text(l layout) string {
+	var b strings.Builder
+	n.print(&b, l, 0)
+	return b.String()
+}
+
+func (n *node) depth() int {
+	d := 0
+	for _, k := range n.kids {
+		if x := k.depth(); x > d {
+			d = x
+		}
+	}
+	if n.arr || n.obj {
+		return d + 1
+	}
+	return 0
+}
+
+func (n *node) size() int {
+	s := 1
+	for _, k := range n.kids {
+		s += k.size()
+	}
+	return s
+}
+
+// tricky: the document contains a string that looks like another type or like the literal's own syntax.
+func (n *node) tricky() bool {
+	if !n.arr && !n.obj {
+		if strings.HasPrefix(n.leaf, `"`) {
+			s := strings.Trim(n.leaf, `"`)
+			return s == "" || strings.ContainsAny(s, "[]{},:#'%. ") || s == "1" || s == "true" || s == "null"
+		}
+		return strings.ContainsAny(n.leaf, "eE") || n.leaf == "-0" || len(n.leaf) > 9
+	}
+	for i, k := range n.kids {
+		if k.tricky() {
+			return true
+		}
+		if n.obj && (&node{leaf: n.keys[i]}).tricky() {
+			return true
+		}
+	}
+	return false
+}
+
+// ---------------------------------------------------------------------------------------------
+// enumeration
+
+func enumDocs(quick bool, fn func(n *node, section string) bool) {
+	full := leafNodes(leavesFull)
+	cont := true
+	emit := func(section string) func(n *node) bool {
+		return func(n *node) bool { cont = fn(n, section); return cont }
+	}
+	// depth 1: containers of leaves
+	k1 := 2
+	if !quick {
+		k1 = 3
+	}
+	if !containers(full, k1, emit("depth1")) {
+		return
+	}
+	// keys: single-pair objects over every key x every leaf; duplicate keys (the last one wins in JSON)
+	for _, k := range allKeys {
+		for _, v := range full {
+			if !fn(&node{obj: true, keys: []string{k}, kids: []*node{v}}, "keys") {
+				return
+			}
+		}
+	}
+	for _, a := range leafNodes(leavesMid) {
+		for _, b := range leafNodes(leavesMid) {
+			if !fn(&node{obj: true, keys: []string{`"a"`, `"a"`}, kids: []*node{a, b}}, "dup-key") {
+				return
+			}
+			if !fn(&node{obj: true, keys: []string{`"a"`, `"b"`, `"a"`}, kids: []*node{a, b, a}}, "dup-key") {
+				return
+			}
+		}
+	}
+	// depth 2: children are leaves or containers (<=2 children over 6 leaves)
+	inner := collect(leafNodes(leavesMid), 2)
+	if !containers(append(append([]*node{}, full...), inner...), 2, emit("depth2")) {
+		return
+	}
+	// depth 3: one child at the top, below it <=2 children per level over {1,"a",null}
+	l3 := leafNodes([]string{`1`, `"a"`, `null`})
+	in1 := collect(l3, 2)
+	in2 := collect(append(append([]*node{}, l3...), in1...), 2)
+	if !containers(in2, 1, emit("depth3")) {
+		return
+	}
+	if quick {
+		return
+	}
+	// thorough: <=3 children at depth 2 over 10 leaves + containers(<=2 children over 4 leaves)
+	inner4 := collect(leafNodes(leavesFour), 2)
+	if !containers(append(leafNodes(leavesTen), inner4...), 3, emit("depth2-wide")) {
+		return
+	}
+	// thorough: depth 3 with <=2 children at every level over {1,"a"}
+	l2 := leafNodes(leavesTwo)
+	t1 := collect(l2, 2)
+	t2 := collect(append(append([]*node{}, l2...), t1...), 2)
+	if !containers(append(append([]*node{}, l2...), t2...), 2, emit("depth3-wide")) {
+		return
+	}
+}
+
+// ---------------------------------------------------------------------------------------------
+// check
+
+func init() {
+	vlib.Register(&vlib.Check{
+		ID: "C36", Engine: "E2",
+		Rule: "JSON documents are enumerated completely from a grammar: (depth1) every array and object with <=2 [thorough <=3] children over 36 scalar leaves (numbers incl. exponents, -0, 2^53+1; true/false/null; strings incl. \"\", \"1\", \"true\", \"null\", \"[\", \"{\", \"]\", \"}\", \",\", \":\", \"#\", \"'\", \"1..3\", \"%[1]\", \"é\"); " +
+			"(keys) single-pair objects over 16 keys x 36 leaves, and duplicate-key objects; (depth2) containers with <=2 children that are leaves or containers(<=2 children over 6 leaves); (depth3) three levels of nesting; " +
+			"thorough adds <=3 children at depth 2 over 10 leaves and <=2 children at all of 3 levels. Every document is printed in 4 layouts (compact, `, `/`: ` spaced, a space wherever JSON allows white space, one element per line) and run in-process as `v = %<text>`; " +
+			"the JSON text and the Go value that the variable table holds for v are compared (reflect.DeepEqual after json.Unmarshal) with encoding/json's decoding of the very same text. " +
+			"non-trivial = the document nests a container, or contains a string that looks like another type / like literal punctuation, or a number in exponent / -0 / >9-digit form, or is printed multi-line or padded",
+		Run:    run,
+		Replay: replay,
+		Assumptions: []string{
+			"strings without backslash, $, ~, ( and ) as in the property's quantifier",
+			"a line break between a key's colon and its value (valid JSON, rejected by %{ } where a new line separates pairs by design) is probed and counted, not asserted",
+		},
+	})
+}
+
+func check(c *vlib.Ctx, text, section string, l layout, n *node, sampleIt bool) {
+	var want any
+	if err := json.Unmarshal([]byte(text), &want); err != nil {
+		c.HarnessError("generator produced invalid JSON %q: %v", text, err)
+	}
+	r, vars := g1util.RunVars("v = %"+text, nil, "v")
+	v := vars[0]
+	outcome := section + "/" + layoutNames[l] + " "
+	switch {
+	case r.Hang:
+		outcome += "hang"
+	case r.Exit != 0 || !v.Set:
+		outcome += "error"
+	default:
+		outcome += "ok:" + v.DataType
+	}
+	nt := true
+	if n != nil {
+		nt = n.depth() > 1 || n.tricky() || l == multiline || l == padded
+	}
+	c.Eval(nt, outcome)
+	if sampleIt {
+		c.Sample(map[string]any{"literal": "%" + text, "stored": v.String, "datatype": v.DataType})
+	}
+	w := "%" + text
+	switch {
+	case r.Hang:
+		c.Violation("terminates", w, r.HangStack)
+		return
+	case mx.HasPanicText(r.Stderr) || mx.HasPanicText(r.Err):
+		c.Violation("no-panic", w, r.String())
+		return
+	case r.Exit != 0 || !v.Set:
+		c.Violation("accepts-json", w, "a literal in JSON syntax was rejected: "+vlib.Clip(r.String(), 500))
+		return
+	}
+	var got any
+	if err := json.Unmarshal([]byte(v.String), &got); err != nil {
+		c.Violation("value", w, fmt.Sprintf("v holds %q (%s), which is not JSON: %v", v.String, v.DataType, err))
+		return
+	}
+	if !reflect.DeepEqual(got, want) {
+		wb, _ := json.Marshal(want)
+		c.Violation("value", w, fmt.Sprintf("v holds %s (%s), encoding/json gives %s", v.String, v.DataType, wb))
+		return
+	}
+	// the Go value murex keeps next to the text must be the same value as well
+	if !reflect.DeepEqual(normalise(v.Value), want) {
+		wb, _ := json.Marshal(want)
+		c.Violation("go-value", w, fmt.Sprintf("variable table holds Go value %#v, encoding/json gives %s", v.Value, wb))
+	}
+}
+
+// normalise: ints to float64 so that the comparison is about the value, not Go's numeric type.
+func normalise(v any) any {
+	switch t := v.(type) {
+	case int:
+		return float64(t)
+	case []any:
+		o := make([]any, len(t))
+		for i := range t {
+			o[i] = normalise(t[i])
+		}
+		return o
+	case map[string]any:
+		o := make(map[string]any, len(t))
+		for k, x := range t {
+			o[k] = normalise(x)
+		}
+		return o
+	}
+	return v
+}
+
+func run(c *vlib.Ctx) {
+	mx.Init(c.WorkDir)
+	cnt := 0
+	enumDocs(c.Quick(), func(n *node, section string) bool {
+		for l := layout(0); l < nLayouts; l++ {
+			if !c.Next() {
+				continue
+			}
+			cnt++
+			if cnt&0xff == 0 && c.Expired() {
+				return false
+			}
+			check(c, n.text(l), section, l, n, cnt%2503 == 1)
+		}
+		return true
+	})
+	// probe (not asserted): a line break between ':' and the value
+	if c.Shard == 0 {
+		for _, t := range []string{"{\"a\":\n1}", "{\"a\":\n{\"b\": 1}\n}", "{\"a\"\n: 1}"} {
+			r, vars := g1util.RunVars("v = %"+t, nil, "v")
+			if r.Exit != 0 || !vars[0].Set {
+				c.Extra("probe (not asserted): valid JSON with a line break between key, ':' and value is rejected", 1)
+			} else {
+				c.Extra("probe (not asserted): valid JSON with a line break between key, ':' and value is accepted", 1)
+			}
+		}
+	}
+}
+
+// replay: the witness is the literal itself ("%" + JSON text).
+func replay(c *vlib.Ctx, w string) {
+	mx.Init(c.WorkDir)
+	text := strings.TrimPrefix(w, "%")
+	var x any
+	if json.Unmarshal([]byte(text), &x) != nil {
+		fmt.Println("witness is not JSON: nothing asserted")
+		return
+	}
+	check(c, text, "replay", compact, nil, false)
+}
